@@ -600,7 +600,7 @@ def r_grade_hinit(rep, f):
 STAGE_ATOM = re.compile(r"^F\d+(@\d+)?$")   # values of the right-hand side (dy/dx): odd under time reflection
 
 
-def parity_fn(odd, even=()):
+def parity_fn(odd, even=(), state_even=False):
     """parity of a symbolic value under time reflection given the atoms assumed odd. Constants are even; opaque scalar
     functions of consistent arguments are even; abs/sqrt/sum/comparisons of a value of definite parity are even; a join,
     min or max takes the common parity of its non-constant inputs and is `mixed` when they differ. `mixed` is contagious:
@@ -609,6 +609,19 @@ def parity_fn(odd, even=()):
     memo = {}
     INPROGRESS = object()
     why = []
+    stage_memo = {}
+
+    def has_stage(a, depth=0):
+        """does the definition of atom a involve values of the right-hand side?"""
+        if a in stage_memo:
+            return stage_memo[a]
+        stage_memo[a] = False
+        r = bool(STAGE_ATOM.match(a))
+        d_ = DEFS.get(a)
+        if not r and d_ and depth < 40:
+            r = any(has_stage(b, depth + 1) for x in d_[1] if isinstance(x, Poly) for b in x.atoms())
+        stage_memo[a] = r
+        return r
 
     def par_atom(a, depth=0):
         if a in memo:
@@ -631,6 +644,11 @@ def parity_fn(odd, even=()):
         elif base == "clamp" and len(args) == 3 and (args[1] + args[2]).is_zero():
             # symmetric clamp(v, -M, M) keeps the parity of v
             r = par(args[0], depth + 1) or "even"
+        elif state_even and base not in ("signum", "inv", "neg", "vec", "idx", "proj", "unwrap", "armval", "Some", "elt", "phi", "widen", "max", "min", "clamp", "powf", "powi") and has_stage(a):
+            # a magnitude computed from state values (norms, sums of squares of state differences): states do not change
+            # under time reflection. The stage model's polynomial right-hand side is not reflection-closed, so the
+            # arguments are not inspected.
+            r = "even"
         elif any(p_ == "mixed" for p_ in ps):
             r = "mixed"
         elif base in ("signum", "inv", "neg", "vec", "idx", "proj", "unwrap", "armval", "Some", "elt", "sum"):
@@ -674,6 +692,7 @@ def parity_fn(odd, even=()):
             why.append("sum of terms of different parity: %s" % repr(p)[:200])
         return ps.pop() if len(ps) == 1 else "mixed"
     par.why = why
+    par.has_stage = has_stage
     return par
 
 
@@ -765,6 +784,15 @@ def r_parity(rep, f):
                 pass
         probs = {}
         n = 0
+        n_cond = set()
+        # a plain parameter used as the signed step on some path (RK4's h) is a signed step on every path
+        param_steps = set()
+        for tag, sx, hk in variants:
+            souts = [r for r in hk.solout_calls if r["in_main"]]
+            if souts and isinstance(souts[0]["x"], Poly):
+                for m, c in (souts[0]["x"] - Poly.atom("X")).t.items():
+                    if len(m) == 1 and m[0][1] == 1 and m[0][0] not in DEFS and m[0][0] not in ("X", "xend", "x0"):
+                        param_steps.add(m[0][0])
         for tag, sx, hk in variants:
             souts = [r for r in hk.solout_calls if r["in_main"]]
             if not souts or not isinstance(souts[0]["x"], Poly):
@@ -812,6 +840,17 @@ def r_parity(rep, f):
                 if len(m) == 1 and m[0][0] not in DEFS and m[0][0] not in ("X", "xend", "x0"):
                     odd_assumed.add(m[0][0])
             par = parity_fn(set(odd_assumed) | {"X", "xend", "x0", "XM", "posneg", "direction"}, set(even_assumed))
+            # a fixed step that reaches the step taken through a join (`if last { xend - x } else { h }`)
+            odd_c = set(odd_assumed) | param_steps
+            for a_ in closure:
+                d_ = DEFS.get(a_)
+                if d_ and d_[0] == "phi":
+                    for x_ in d_[1]:
+                        if isinstance(x_, Poly):
+                            for m, c in x_.t.items():
+                                if len(m) == 1 and m[0][1] == 1 and m[0][0] not in DEFS and m[0][0] not in ("X", "xend", "x0"):
+                                    odd_c.add(m[0][0])
+            par_c = parity_fn(odd_c | {"X", "xend", "x0", "XM", "posneg", "direction"}, set(even_assumed), state_even=True)
 
             def check(p, want, what, node):
                 nonlocal n
@@ -827,6 +866,42 @@ def r_parity(rep, f):
                 if s.get("head") or not s.get("in_main") or not isinstance(s.get("T"), Poly):
                     continue
                 check(s["T"] - Poly.atom("X"), "odd", "stage offset `%s`" % tast.render(s["node"]["args"][0]), s["node"])
+            # every ordering test evaluated in the main loop is the same test after time reflection: the difference of the
+            # two sides has one parity, and that parity is even (an odd difference means `<` becomes `>` for the mirrored run)
+            def cond_parts(c, depth=0):
+                a_ = c.single_atom() if isinstance(c, Poly) else None
+                d_ = DEFS.get(a_) if a_ else None
+                if not d_ or depth > 8:
+                    return
+                if d_[0] in ("and", "or", "not"):
+                    for x_ in d_[1]:
+                        yield from cond_parts(x_, depth + 1)
+                elif d_[0] in ("lt", "le", "gt", "ge", "eq", "ne") and len(d_[1]) == 2 and all(isinstance(x_, Poly) for x_ in d_[1]):
+                    yield d_[0], d_[1][0], d_[1][1]
+            seen_c = set()
+            for ev in sx.trace:
+                if ev.get("kind") != "if" or not isinstance(ev.get("cond"), Poly):
+                    continue
+                nd = ev["node"]
+                if id(nd) in seen_c and not tag.startswith("after-reject"):
+                    pass
+                if hk.main_loop is None or not tast.contains(hk.main_loop, lambda z: z is nd):
+                    continue
+                for op_, l_, r_ in cond_parts(ev["cond"]):
+                    d_ = l_ - r_
+                    if d_.is_zero() or d_.is_const() or any(STAGE_ATOM.match(a_) for a_ in d_.atoms()):
+                        continue
+                    del par_c.why[:]
+                    got = par_c(d_)
+                    n_cond.add(id(nd))
+                    # `signed quantity > 0` is a test of the direction itself: the mirrored run takes the other branch by
+                    # design (that the branches are mirror images is what the value clauses check)
+                    sign_test = got == "odd" and (l_.is_zero() or r_.is_zero())
+                    bad = got == "mixed" or (got == "odd" and op_ not in ("eq", "ne") and not sign_test)
+                    if bad:
+                        what = "the test `%s`" % tast.render(nd["cond"])[:70]
+                        probs.setdefault(what, ("%s compares %s with %s: the difference is %s under time reflection, so the mirrored run takes the other branch%s (path variant %s)"
+                                                % (what, repr(l_)[:120], repr(r_)[:60], got, (" [" + par_c.why[0] + "]") if got == "mixed" and par_c.why else "", tag), nd))
             acc_keys = [k for k, nm in sx.names.items() if nm.endswith(".accepted")]
             for L in hk.latch or []:
                 for k in head_step:
@@ -838,9 +913,10 @@ def r_parity(rep, f):
                             continue
                         check(hv, var_parity.get(k, "odd"), "the next step `%s`" % sx.names.get(k, k), hk.main_loop)
         for what, (msg, node) in probs.items():
-            rep.violation("R-PARITY", "%s:%s" % (key, what.split("`")[0].strip()), msg[:500], node.get("sp") if isinstance(node, dict) else None)
+            wk = ("test " + what.split("`")[1]) if what.startswith("the test `") else what.split("`")[0].strip()
+            rep.violation("R-PARITY", "%s:%s" % (key, wk), msg[:500], node.get("sp") if isinstance(node, dict) else None)
         if not probs:
             if n == 0:
                 rep.inconc("R-PARITY", key, "nothing analysed")
             else:
-                rep.ok("R-PARITY", key, "%d time-like value(s) (step taken, stage offsets, next step) have the right parity under time reflection" % n)
+                rep.ok("R-PARITY", key, "%d time-like value(s) (step taken, stage offsets, next step) have the right parity under time reflection; %d ordering test(s) evaluated in the main loop compare sides whose difference is even" % (n, len(n_cond)))
